@@ -5,10 +5,9 @@ package main
 // integer tightening of strict inequalities) used by E1.
 
 import (
-	"fmt"
 	"math/big"
 	"sort"
-	"strings"
+	"strconv"
 )
 
 type AtomID int
@@ -129,12 +128,15 @@ func (l *Lin) equal(o *Lin) bool {
 
 // key is a canonical text form (atom ids, not names).
 func (l *Lin) key() string {
-	var sb strings.Builder
-	sb.WriteString(l.C.String())
+	buf := make([]byte, 0, 16+12*len(l.T))
+	buf = l.C.Append(buf, 32)
 	for _, a := range l.atoms() {
-		fmt.Fprintf(&sb, "|%d*%s", int(a), l.T[a].String())
+		buf = append(buf, '|')
+		buf = strconv.AppendInt(buf, int64(a), 32)
+		buf = append(buf, '*')
+		buf = l.T[a].Append(buf, 32)
 	}
-	return sb.String()
+	return string(buf)
 }
 
 // normIneq divides an inequality by the gcd of its coefficients (tightening the
@@ -177,11 +179,158 @@ func negIneq(l *Lin) *Lin { return l.neg().addConst(1) }
 
 const fmCap = 6000
 
+// bound1 extracts "coef·a + c ≤ 0" as a bound on the single atom a.
+func bound1(l *Lin) (a AtomID, upper bool, val *big.Int, ok bool) {
+	if len(l.T) != 1 {
+		return 0, false, nil, false
+	}
+	for id, c := range l.T {
+		// after normIneq the coefficient is ±1
+		if c.Cmp(bi(1)) == 0 {
+			return id, true, new(big.Int).Neg(l.C), true // a ≤ -C
+		}
+		if c.Cmp(bi(-1)) == 0 {
+			return id, false, new(big.Int).Set(l.C), true // a ≥ C
+		}
+	}
+	return 0, false, nil, false
+}
+
+// presolve simplifies a conjunction of inequalities: equalities (a constraint
+// together with its negation) with a unit coefficient are eliminated by
+// substitution, and only the tightest single-atom bounds are kept.
+// It returns contradiction=true if the system is already infeasible.
+func presolve(cons []*Lin) (out []*Lin, contradiction bool) {
+	cur := make([]*Lin, 0, len(cons))
+	for _, c := range cons {
+		c = normIneq(c)
+		if c.isConst() {
+			if c.C.Sign() > 0 {
+				return nil, true
+			}
+			continue
+		}
+		cur = append(cur, c)
+	}
+	for iter := 0; iter < 64; iter++ {
+		keys := make(map[string]int, len(cur))
+		for i, c := range cur {
+			keys[c.key()] = i
+		}
+		var eq *Lin
+		var ea AtomID
+		for _, c := range cur {
+			if _, ok := keys[normIneq(c.neg()).key()]; !ok {
+				continue
+			}
+			for _, a := range c.atoms() {
+				if k := c.T[a]; k.Cmp(bi(1)) == 0 || k.Cmp(bi(-1)) == 0 {
+					eq, ea = c, a
+					break
+				}
+			}
+			if eq != nil {
+				break
+			}
+		}
+		if eq == nil {
+			break
+		}
+		// eq: k·ea + rest = 0  ⇒  ea = -rest/k  (k = ±1)
+		k := eq.T[ea]
+		rest := eq.clone()
+		delete(rest.T, ea)
+		var expr *Lin
+		if k.Sign() > 0 {
+			expr = rest.neg()
+		} else {
+			expr = rest
+		}
+		next := make([]*Lin, 0, len(cur))
+		seen := map[string]bool{}
+		for _, c := range cur {
+			n := c
+			if c.has(ea) {
+				n = normIneq(c.subst(ea, expr))
+			}
+			if n.isConst() {
+				if n.C.Sign() > 0 {
+					return nil, true
+				}
+				continue
+			}
+			kk := n.key()
+			if seen[kk] {
+				continue
+			}
+			seen[kk] = true
+			next = append(next, n)
+		}
+		cur = next
+	}
+	// tightest single-atom bounds
+	type bd struct{ lo, hi *big.Int }
+	bds := map[AtomID]*bd{}
+	var rest []*Lin
+	for _, c := range cur {
+		if a, up, v, ok := bound1(c); ok {
+			b := bds[a]
+			if b == nil {
+				b = &bd{}
+				bds[a] = b
+			}
+			if up {
+				if b.hi == nil || v.Cmp(b.hi) < 0 {
+					b.hi = v
+				}
+			} else {
+				if b.lo == nil || v.Cmp(b.lo) > 0 {
+					b.lo = v
+				}
+			}
+			continue
+		}
+		rest = append(rest, c)
+	}
+	// atoms that occur only in bounds cannot contribute to a contradiction other than lo > hi
+	occ := map[AtomID]bool{}
+	for _, c := range rest {
+		for a := range c.T {
+			occ[a] = true
+		}
+	}
+	ids := make([]AtomID, 0, len(bds))
+	for a := range bds {
+		ids = append(ids, a)
+	}
+	sort.Slice(ids, func(i, j int) bool { return ids[i] < ids[j] })
+	for _, a := range ids {
+		b := bds[a]
+		if b.lo != nil && b.hi != nil && b.lo.Cmp(b.hi) > 0 {
+			return nil, true
+		}
+		if !occ[a] {
+			continue
+		}
+		if b.hi != nil {
+			rest = append(rest, ineqLE(linAtom(a), linBig(b.hi)))
+		}
+		if b.lo != nil {
+			rest = append(rest, ineqGE(linAtom(a), linBig(b.lo)))
+		}
+	}
+	return rest, false
+}
+
 // unsat reports whether the conjunction of the inequalities (each "≤ 0") has
 // no rational solution. ok=false means the procedure gave up (size cap).
 func unsat(cons []*Lin) (res bool, ok bool) {
+	cur0, contra := presolve(cons)
+	if contra {
+		return true, true
+	}
 	// normalise, dedupe, detect trivial contradictions
-	cur := make([]*Lin, 0, len(cons))
+	cur := make([]*Lin, 0, len(cur0))
 	seen := map[string]bool{}
 	push := func(dst *[]*Lin, l *Lin) bool {
 		l = normIneq(l)
@@ -196,12 +345,45 @@ func unsat(cons []*Lin) (res bool, ok bool) {
 		*dst = append(*dst, l)
 		return false
 	}
-	for _, c := range cons {
+	for _, c := range cur0 {
 		if push(&cur, c) {
 			return true, true
 		}
 	}
 	for {
+		// drop constraints containing an atom that occurs with one sign only
+		for changed := true; changed; {
+			changed = false
+			sign := map[AtomID]int{}
+			for _, l := range cur {
+				for a, c := range l.T {
+					s := 1
+					if c.Sign() < 0 {
+						s = 2
+					}
+					sign[a] |= s
+				}
+			}
+			kept := cur[:0]
+			for _, l := range cur {
+				drop := false
+				for a := range l.T {
+					if sign[a] != 3 {
+						drop = true
+						break
+					}
+				}
+				if drop {
+					changed = true
+				} else {
+					kept = append(kept, l)
+				}
+			}
+			cur = kept
+		}
+		if len(cur) == 0 {
+			return false, true
+		}
 		// pick the atom with the smallest pos*neg product
 		type cnt struct{ p, n int }
 		cn := map[AtomID]*cnt{}
@@ -219,11 +401,9 @@ func unsat(cons []*Lin) (res bool, ok bool) {
 				}
 			}
 		}
-		if len(cn) == 0 {
-			return false, true
-		}
 		var best AtomID
-		bestCost := -1
+		bestCost := 0
+		first := true
 		ids := make([]AtomID, 0, len(cn))
 		for a := range cn {
 			ids = append(ids, a)
@@ -232,8 +412,8 @@ func unsat(cons []*Lin) (res bool, ok bool) {
 		for _, a := range ids {
 			x := cn[a]
 			cost := x.p*x.n - x.p - x.n
-			if bestCost == -1 || cost < bestCost {
-				best, bestCost = a, cost
+			if first || cost < bestCost {
+				best, bestCost, first = a, cost, false
 			}
 		}
 		var pos, neg, rest []*Lin
@@ -261,7 +441,6 @@ func unsat(cons []*Lin) (res bool, ok bool) {
 			for _, n := range neg {
 				cp := p.T[best]
 				cnn := new(big.Int).Neg(n.T[best])
-				// cnn*p + cp*n eliminates best
 				comb := p.scale(cnn).addScaled(n, cp)
 				delete(comb.T, best)
 				if push(&next, comb) {
@@ -270,9 +449,6 @@ func unsat(cons []*Lin) (res bool, ok bool) {
 			}
 		}
 		cur = next
-		if len(cur) == 0 {
-			return false, true
-		}
 	}
 }
 
